@@ -303,3 +303,45 @@ func applyOps(m model, ops []op) model {
 	}
 	return out
 }
+
+// genFreshBatch generates a batch that only inserts new keys and overwrites existing keys, every
+// key at most once and every value carrying 8 PRNG bytes, so that no node of the resulting tree
+// can be identical to a node that exists anywhere in the database already. It is used for the
+// competing (to be discarded) state candidates on the hashed badger backend, whose Finalize has
+// the open C06 finding badger/finalize/discarded-sibling-recreated-preexisting-node.
+func genFreshBatch(rng *rand.Rand, cur model, maxOps int) []op {
+	n := 1 + rng.IntN(maxOps)
+	touched := map[string]bool{}
+	var ops []op
+	fresh := func() []byte {
+		v := make([]byte, 8+rng.IntN(3))
+		for i := range v {
+			v[i] = byte(rng.IntN(256))
+		}
+		return v
+	}
+	live := cur.keys()
+	for try := 0; len(ops) < n && try < 4*n+8; try++ {
+		if len(live) > 0 && rng.IntN(3) == 0 {
+			k := live[rng.IntN(len(live))]
+			if touched[k] {
+				continue
+			}
+			touched[k] = true
+			ops = append(ops, op{opOverwrite, []byte(k), fresh()})
+			continue
+		}
+		var k []byte
+		if len(live) > 0 && rng.IntN(2) == 0 {
+			k = append(append([]byte{}, live[rng.IntN(len(live))]...), advKey(rng, 2)...)
+		} else {
+			k = advKey(rng, 6)
+		}
+		if _, ok := cur[string(k)]; ok || touched[string(k)] {
+			continue
+		}
+		touched[string(k)] = true
+		ops = append(ops, op{opInsertNew, k, fresh()})
+	}
+	return ops
+}
